@@ -642,7 +642,7 @@ func main() {
 		{"GenFastCsv.v", genFastCsv}, {"GenQFrameOps.v", genQFrameOps}, {"GenExprTree.v", genExprTree},
 		{"GenIoCsv.v", genIoCsv}, {"GenSqlIO.v", genSqlIO}, {"GenAggr.v", genAggr}, {"GenEnumFac.v", genEnumFac},
 		{"GenFilterDispatch.v", genFilterDispatch}, {"GenColApply.v", genColApply}, {"GenIoJson.v", genIoJson},
-		{"GenEvalCtx.v", genEvalCtx}, {"GenViews.v", genViews},
+		{"GenEvalCtx.v", genEvalCtx}, {"GenViews.v", genViews}, {"GenSqlWrite.v", genSqlWrite},
 	}
 	// the first seven files mix translated and fallback definitions (every definition is self-contained there); for
 	// the later ones a fallback block may refer to generated types (an Inductive collected from the struct literals of
